@@ -24,6 +24,7 @@ def check(rep):
     PR.rule_compiles(ctx, layouts=(False,))
     PR.rule_names_bound(ctx, layouts=(False,))
     PR.rule_generator_total(ctx)
+    PR.rule_trailing_raise(ctx, rid="C07.ENDS-IN-GROUP-OR-UNROUTABLE")
     PR.rule_literal_terms(ctx, rid="C07.TERM-RENDER")
     PR.rule_ident_positions(ctx)
     rep.assume("NOT decided: interpreter limits (recursion depth, CPython's nesting limits) for sizes beyond the explored family; "
